@@ -167,4 +167,77 @@ PROPS = {
         ],
         "trusted_extra": ["Lean model of std::net parser/printer (validated exhaustively over zero-group patterns x boundary values and by random strings, not verified against the std source)"],
     },
+    "C11": {
+        "modules": ["Resolved.Props.C11"],
+        "streams": [{"name": "ztext", "quick": 160000, "thorough": 3000000}],
+        "trivial_tags": [r":bad-op", r"ztext\.rendered:ambiguous", r"ztext\.parse:err/MissingType"],
+        "stated_not_proved": [],
+        "assumptions": ["see PROPS_ENTRY.txt"],
+    },    "C13": {
+        "modules": ["Resolved.Props.C13"],
+        "streams": [{"name": "ztext-roundtrip", "quick": 80000, "thorough": 1500000}],
+        "trivial_tags": [r":bad-op", r"ztext\.roundtrip:err/", r"ztext\.api:nonwf"],
+        "stated_not_proved": [],
+        "assumptions": ["see PROPS_ENTRY.txt"],
+    },    "C17": {
+        "modules": ["Resolved.Props.C17"],
+        "streams": [{"name": "ztext-fuzz", "quick": 60000, "thorough": 1000000},
+                    {"name": "ztext", "quick": 40000, "thorough": 600000}],
+        "trivial_tags": [r":bad-op"],
+        "assumptions": ["see PROPS_ENTRY.txt"],
+    },    "C11": {'assumptions': ['the meaning of a zone file is Spec/ZoneTextSpec.lean `denote` (RFC 1035 section 5 read as: origin '
+                     'resolution, inheritance of owner/TTL, wildcard owners, SOA => authoritative apex, TTLs raised to '
+                     'MINIMUM, the SOA record and what inherits from it carry MINIMUM - decision D9); names are compared '
+                     'in canonical lower case',
+                     '`Unambiguous ds` (decidable, Spec): an explicit owner token is not IN / all digits / a type mnemonic '
+                     '/ $ORIGIN / $INCLUDE and does not begin with `*`; no RDATA token spells a record type (the parser '
+                     'finds the type from the right); labels are ASCII without `.`; class tokens are IN CH HS CS; numbers '
+                     'fit their fields; names fit 63/255',
+                     '`VariantOk v`: the comments of the lexical variant contain no line feed (a comment ends at the line '
+                     'end)',
+                     'std text functions: char::is_whitespace, to_digit, u32/u16::from_str and integer Display are '
+                     'modelled in Model/IpText.lean; Ipv4Addr/Ipv6Addr::from_str and Display are the shared model '
+                     '`Resolved.Ip` of Model/Hosts.lean (lemmas Proofs/IpLemmas.lean); all after library/core sources, '
+                     'tied to the real std by the streams only',
+                     'C11_parse_render (= _accepted + _rejected) is a theorem about the MODEL for whole files and every '
+                     'variant; the Rust is tied to the model by the ztext stream (Impl == Model on every case). For '
+                     'rejected files only `some Err` is claimed, not which one (the parser may meet another fault of the '
+                     'same line first, e.g. MissingType for an unresolvable RDATA name). Exception stated in the theorem: '
+                     'the situation of C11-K1 (`isK1`)',
+                     'escaped `.` inside labels and the relative name `\\@` are outside `Unambiguous` (open finding '
+                     'C11-K2); errors badName/badRdata of the specification at the first rejected directive are outside it '
+                     'too (noNameError)'],
+     'modules': ['Resolved.Props.C11'],
+     'stated_not_proved': [],
+     'streams': [{'name': 'ztext', 'quick': 160000, 'thorough': 3000000}],
+     'trivial_tags': [':bad-op', 'ztext\\.rendered:ambiguous', 'ztext\\.parse:err/MissingType']},
+    "C13": {'assumptions': ['precondition of the round trip (D-list of DESIGN section C13, `ZoneTextOK` / driver `specWF`): '
+                     'labels ASCII without `.`, no name label starting with `*` (API zones), no unknown record types, no '
+                     "SOA-typed record besides the zone's own, non-authoritative => apex is the root; zones outside it are "
+                     'still compared Impl-vs-Model (tag nonwf)',
+                     'the order of the record lines inside one owner block is a hash-map order in the Rust: the serialised '
+                     "text is accepted when it equals the model's up to that order (sorted per block on both sides), and "
+                     "the re-read zone is compared as apex + SOA + sorted record lists, plus Rust's own `==`",
+                     'std Ipv4Addr/Ipv6Addr parser and printer: the shared model `Resolved.Ip` of Model/Hosts.lean '
+                     '(print/parse lemmas of Proofs/IpLemmas.lean); integer parser/printer and char classes: '
+                     'Model/IpText.lean',
+                     'C13_roundtrip is proved for zones built through the insertion API (Zone.build) under ZoneTextOK and '
+                     'OnlyOwnSoa; that every zone obtained by PARSING satisfies these hypotheses (apart from the `*` owner '
+                     'clause = C13-K1) is checked on the streams, not proved'],
+     'bins': ['ztoz'],
+     'modules': ['Resolved.Props.C13'],
+     'stated_not_proved': [],
+     'streams': [{'name': 'ztext-roundtrip', 'quick': 80000, 'thorough': 1500000}],
+     'trivial_tags': [':bad-op', 'ztext\\.roundtrip:err/', 'ztext\\.api:nonwf']},
+    "C17": {'assumptions': ['totality is a property of the Lean model (by construction; fuel never exhausted by theorem); the '
+                     'Rust is tied to it by catch_unwind around every Zone::deserialise / serialise call on each stream '
+                     'case (texts up to ~100 KB; random Unicode, unbalanced quotes/parentheses, truncated and out-of-range '
+                     'escapes, NULs, huge numbers)',
+                     'allocation failure and native stack depth are observed only (the parser has no recursion besides '
+                     'ZoneRecords::insert, depth <= 127)'],
+     'modules': ['Resolved.Props.C17', 'Resolved.Props.C14'],
+     'streams': [{'name': 'ztext-fuzz', 'quick': 60000, 'thorough': 1000000},
+                 {'name': 'ztext', 'quick': 40000, 'thorough': 600000},
+                 {'name': 'hosts', 'quick': 30000, 'thorough': 600000}],
+     'trivial_tags': [':bad-op']},
 }
